@@ -255,8 +255,8 @@ Definition c15_ok (c : case) : bool :=
   | CCall pre c k _ out post => ok_call_case pre c k out post
   end.
 
-(** exchange_always_completes (full statement): the associated proxy's current request, handed to its
-    associated signer while both are in step, is processed. Fails on the F15b wedge. *)
+(** exchange_always_completes: the associated proxy's current request, handed to its associated signer
+    while both are in step, is processed. (Failed on the F15b wedge of the pinned tree.) *)
 Fixpoint completes_steps (cur : signer) (steps : list sstep) : bool :=
   match steps with
   | [] => true
